@@ -1288,8 +1288,8 @@ class Engine:
                 if ow is None or ow[2] != size:
                     raise EngineError('invalid-access', 'read of foreign cell %#x never written (or size mismatch) %s' % (addr, self.loc(ins)))
                 s = fresh('r', size * 8)
-                self._domain(st, s, None, ow, size)
                 self.emit(st, kind, addr, size, s, None, ordering, atomic, ins)
+                self._domain(st, s, None, ow, size)
                 return s
         o = self._lookup(st, addr, size, 'read', ins)
         own = self.mem_read(st, addr, size, ins, o)
@@ -1299,8 +1299,8 @@ class Engine:
                 if ow[2] != size:
                     raise Unsupported('mixed-size access to shared cell %#x' % addr)
                 s = fresh('r', size * 8)
-                self._domain(st, s, own, ow, size)
                 self.emit(st, kind, addr, size, s, None, ordering, atomic, ins)
+                self._domain(st, s, own, ow, size)
                 return s
             self.emit(st, kind, addr, size, own, None, ordering, atomic, ins, local=True)
         return own
@@ -1367,7 +1367,7 @@ class Engine:
             self.mem_write(st, a, size, new, ins, o)
         if ev is not None:
             ev.wval = new
-            ev.info = op
+            ev.info = (op, v)
         fr.regs[ins.dest] = old
         return None
 
